@@ -146,6 +146,15 @@ def run(chk):
     import gen_spend
     spends = gen_spend.spend_jobs(chk, prefix="cs", n_per_cell=1, muts=["valid", "wrong-key", "annex"])
     import c02, gen_sig
+    # tapscript spends whose leaf executes an OP_CODESEPARATOR at position 1 or 2 before a real signature check (always present, not by chance)
+    from drivers import SessionJob as _SJ
+    made = 0
+    for rep in range(400):
+        if made >= 6: break
+        c = gen_spend.SpendCase(chk.rng, "p2tr-script", "valid", 1, 0, 0, pathlen=rep % 3)
+        if getattr(c, "cspos", 0xffffffff) not in (1, 2): continue
+        made += 1
+        spends.append(_SJ("cs-codesep%d" % made, b"", [], STANDARD, "BASE", cmds=["steps"], cmp=gen_spend.CMP_SPEND, auto=True, txctx={"tx": c.tx.hex(), "txin": c.funding.hex(), "select": -1}))
     def do_spend(ij):
         i, j = ij
         mode = ["stdin-tty/stdout-pipe", "tty/tty+DEBUG_SET_PIPE_OUT"][i % 2]
